@@ -121,7 +121,11 @@ def lexer_rules(F, res):
             name = m.group(1) if m else txt.strip("#[]")
             if v == "":
                 if name == "logos":
-                    bad.append("enum-level %s" % txt)
+                    # options of the derive that do not touch the token stream: the type of the lexer's `extras` (state the callbacks
+                    # may keep), named sub-patterns, the path of the crate, the source type
+                    opts = [x.strip().replace(" ", "") for x in re.split(r",(?![^()\[\]]*[)\]])", m.group(2) if m else "") if x.strip()]
+                    if not m or not all(re.match(r"(extras|subpattern\w*|crate|type\w*|source)\b\s*=?", o) for o in opts):
+                        bad.append("enum-level %s" % txt)
                 continue
             if name in ("token", "regex"):
                 n += 1
